@@ -377,6 +377,31 @@ func isNumberKind(k reflect.Kind) bool {
 	return false
 }
 
+// hashable reports whether v can be used as a map key. A value of a
+// comparable type may still hold something that cannot be hashed, such as a
+// struct with a slice in an interface-typed field.
+func hashable(v reflect.Value) bool {
+	switch v.Kind() {
+	case reflect.Slice, reflect.Map, reflect.Func:
+		return false
+	case reflect.Interface:
+		return v.IsNil() || hashable(v.Elem())
+	case reflect.Struct:
+		for i := 0; i < v.NumField(); i++ {
+			if !hashable(v.Field(i)) {
+				return false
+			}
+		}
+	case reflect.Array:
+		for i := 0; i < v.Len(); i++ {
+			if !hashable(v.Index(i)) {
+				return false
+			}
+		}
+	}
+	return true
+}
+
 // indexNumber returns the number denoted by attr, if attr is a number or a
 // numeric string; anything else cannot be used as an index.
 func indexNumber(attr Value) (float64, bool) {
@@ -422,7 +447,8 @@ func mapKey(attr Value, typ reflect.Type) (reflect.Value, bool) {
 	}
 	av := reflect.ValueOf(attr)
 	if av.Type().AssignableTo(typ) {
-		return av, av.Type().Comparable()
+		// A key that cannot be hashed is in no map.
+		return av, av.Type().Comparable() && hashable(av)
 	}
 	switch {
 	case typ.Kind() == reflect.String:
